@@ -33,14 +33,30 @@ class C01(core.Check):
             'non-trivial = at least one fill before the cut; distinct = distinct (session, cut)')
     assumptions = ['hook observations carry the strategy index, its price and position size; candle reads are covered by C07']
 
+    def primer(self, res):
+        """sessions of one process come in every order: the first one of this check is a fast-simulator session on a 15m
+        route, so that anything a simulator keeps from an earlier session (chunk size, clocks, stores) is a LARGE one"""
+        if getattr(self, '_primed', False):
+            return
+        self._primed = True
+        prng = random.Random(self.seed + 17)
+        primer = engcorr.gen_session(prng, max_n=60, allow_two=False, fast=True, tfs=('15m',), data=False, lengths=[60])
+        try:
+            engoracles.c01_compare(primer, engcorr.candles_of(primer), 30, prng)
+            res.count('primer-session')
+        except Exception:  # noqa
+            res.count('primer-session-error')
+
     def correspondence(self, res, boost):
         jesse_env.setup()
+        self.primer(res)
         rng = random.Random(self.seed * 7919 + 1)
         sessions = [engcorr.gen_session(rng, watch=rng.random() < 0.15) for _ in range(self.budget(80, 500, boost))]
         engcorr.compare_sessions(res, sessions)
 
     def oracle(self, res, boost):
         jesse_env.setup()
+        self.primer(res)
         rng = random.Random(self.seed * 104729 + 5)
         for _ in range(self.budget(100, 800, boost)):
             sess = engcorr.gen_session(rng, max_n=120, tight=rng.random() < 0.4, vol=rng.choice([4, 8]), watch=rng.random() < 0.25)
